@@ -169,3 +169,14 @@ Proof.
     repeat (destruct Hm as [<-|Hm]; [|]); try contradiction;
     try reflexivity; try discriminate; vm_compute in Nn, Nm; congruence.
 Qed.
+
+(* Scope: the theorems above assume anchors on Scalars (scalar_anchors).  Beyond it the code
+   misses anchors: an anchored Array that is an ELEMENT of an Array is not recorded by
+   scan_for_anchors (known finding F-C10-1; witness  [&l [1]] ) *)
+Theorem C10_anchored_array_element_unseen_refuted :
+  exists d, (exists i e, d = NSeq i [e] /\ an_name e = Some "l") /\ scan_anchors d [] = [].
+Proof.
+  exists (NSeq (mkinfo 2 None true None)
+               [NSeq (mkinfo 3 (Some "l") true None) [lf 4 None (PInt 1)]]).
+  split; [eexists; eexists; split; reflexivity|reflexivity].
+Qed.
